@@ -1249,6 +1249,19 @@ func (env *SpecEnv) call(x ECall) (SVal, error) {
 		}
 		rs, ok := e.pureResultSortN(fnName, resIdx)
 		if !ok {
+			// package given by its name instead of its import path (url.QueryEscape)
+			if i := strings.LastIndex(fnName, "."); i > 0 {
+				for _, p := range e.prog.AllPackages() {
+					if p.Pkg.Name() == fnName[:i] && p.Func(fnName[i+1:]) != nil && !strings.Contains(p.Pkg.Path(), "/internal/") && !strings.Contains(p.Pkg.Path(), "vendor/") {
+						if rs2, ok2 := e.pureResultSortN(p.Pkg.Path()+"."+fnName[i+1:], resIdx); ok2 {
+							rs, ok, fnName = rs2, true, p.Pkg.Path()+"."+fnName[i+1:]
+							break
+						}
+					}
+				}
+			}
+		}
+		if !ok {
 			return SVal{}, fmt.Errorf("unknown pure function %s", x.Fn)
 		}
 		fn := fmt.Sprintf("ext$%s$%d", mangle(fnName), resIdx)
